@@ -70,14 +70,19 @@ def pageKeys (p : List Elem) : List Name := (p.filter (·.1 = tagKey)).map (·.2
 /-- the page carries `<IsTruncated>false</IsTruncated>` -/
 def pageFinal (p : List Elem) : Bool := p.any (fun e => e.1 = tagIsTruncated ∧ e.2 = "false".toList)
 /-- the last `<NextContinuationToken>` of the page -/
-def pageToken (p : List Elem) : Option Name := ((p.filter (·.1 = tagNextToken)).getLast?).map (·.2)
+def pageToken : List Elem → Option Name
+  | [] => none
+  | e :: p =>
+    match pageToken p with
+    | some t => some t
+    | none => if e.1 = tagNextToken then some e.2 else none
 
-/-- protocol conformance of an S3 service for one listing: following the tokens from `tok` serves exactly `ks` -/
-inductive S3Conf (respond : Option Name → List Elem) : Option Name → List Name → Prop
-  | last (tok : Option Name) (h : pageFinal (respond tok) = true) : S3Conf respond tok (pageKeys (respond tok))
-  | more (tok : Option Name) (t : Name) (rest : List Name) (h : pageFinal (respond tok) = false)
-      (ht : pageToken (respond tok) = some t) (hr : S3Conf respond (some t) rest) :
-      S3Conf respond tok (pageKeys (respond tok) ++ rest)
+/-- protocol conformance of an S3 service for one listing: following the tokens from `tok` serves exactly `ks`, in `n` pages -/
+inductive S3Conf (respond : Option Name → List Elem) : Option Name → List Name → Nat → Prop
+  | last (tok : Option Name) (h : pageFinal (respond tok) = true) : S3Conf respond tok (pageKeys (respond tok)) 1
+  | more (tok : Option Name) (t : Name) (rest : List Name) (n : Nat) (h : pageFinal (respond tok) = false)
+      (ht : pageToken (respond tok) = some t) (hr : S3Conf respond (some t) rest n) :
+      S3Conf respond tok (pageKeys (respond tok) ++ rest) (n + 1)
 
 /-! ### B2 -/
 structure B2Page where
@@ -103,20 +108,24 @@ def b2Requests (respond : Option Name → B2Page) : Nat → Option Name → Nat
     | none => 1
     | some s => 1 + b2Requests respond fuel (some s)
 
-/-- protocol conformance of a B2 service for one listing (b2_list_file_names) -/
-inductive B2Conf (respond : Option Name → B2Page) : Option Name → List Name → Prop
-  | last (start : Option Name) (h : (respond start).next = none) : B2Conf respond start (respond start).files
-  | more (start : Option Name) (s : Name) (rest : List Name) (h : (respond start).next = some s)
-      (hr : B2Conf respond (some s) rest) : B2Conf respond start ((respond start).files ++ rest)
+/-- protocol conformance of a B2 service for one listing (b2_list_file_names): `n` pages serve exactly `ks` -/
+inductive B2Conf (respond : Option Name → B2Page) : Option Name → List Name → Nat → Prop
+  | last (start : Option Name) (h : (respond start).next = none) : B2Conf respond start (respond start).files 1
+  | more (start : Option Name) (s : Name) (rest : List Name) (n : Nat) (h : (respond start).next = some s)
+      (hr : B2Conf respond (some s) rest n) : B2Conf respond start ((respond start).files ++ rest) (n + 1)
 
 /-! ### concrete services with a page size (the harness fakes) -/
 
 /-- continuation token of the model service: the offset in unary -/
 def offToken (off : Nat) : Name := List.replicate off 'x'
 
+def tokOff : Option Name → Nat
+  | none => 0
+  | some t => t.length
+
 /-- S3 service holding the matching keys `keys` (any fixed order), page size `ps` -/
 def s3Serve (ps : Nat) (keys : List Name) (tok : Option Name) : List Elem :=
-  let off := match tok with | none => 0 | some t => t.length
+  let off := tokOff tok
   let more := decide (off + ps < keys.length)
   [(tagIsTruncated, if more then "true".toList else "false".toList)]
     ++ ((keys.drop off).take ps).map (fun k => (tagKey, k))
